@@ -225,6 +225,19 @@ var c14Positions = map[string]func(sl config.PluginConfig, with bool) []config.P
 		}
 		return rest
 	},
+	// next to the other plugin that holds the response header back (gzip), on either side of it
+	"gzip-outside": func(sl config.PluginConfig, with bool) []config.PluginConfig {
+		if with {
+			return []config.PluginConfig{gzipCfg(5, 1, "text/"), sl}
+		}
+		return []config.PluginConfig{gzipCfg(5, 1, "text/")}
+	},
+	"gzip-inside": func(sl config.PluginConfig, with bool) []config.PluginConfig {
+		if with {
+			return []config.PluginConfig{sl, gzipCfg(5, 1, "text/")}
+		}
+		return []config.PluginConfig{gzipCfg(5, 1, "text/")}
+	},
 }
 
 type c14Case struct {
@@ -298,6 +311,11 @@ func c14JudgeResponse(c c14Case, with, without wire.Response) (string, string) {
 		}
 		if len(with.Interim) != len(without.Interim) {
 			return "C14/within-limit/interim-response-lost", fmt.Sprintf("the handler's %d interim response(s) arrive as %d through size_limit", len(without.Interim), len(with.Interim))
+		}
+		// (the status is the origin program's, not only what the same chain without size_limit
+		// makes of it: a defect in a plugin both chains share would cancel out)
+		if origin := map[bool]int{true: 200, false: c.Status}[c.Status == 0]; !strings.HasPrefix(c.Position, "proxy-") && with.Status != origin && without.Status != origin {
+			return "C14/within-limit/status-differs-from-the-origins", fmt.Sprintf("the handler answered %d; the client received %d through the chain (and %d through the same chain without size_limit)", origin, with.Status, without.Status)
 		}
 		if with.Status != without.Status {
 			bodyless := "with-body"
@@ -764,8 +782,15 @@ func TestVerifC14(t *testing.T) {
 		if idx%shards != shard {
 			continue
 		}
-		for _, pos := range []string{"alone", "innermost"} {
+		for _, pos := range []string{"alone", "innermost", "gzip-outside", "gzip-inside"} {
 			be := wire.NewBackend("b0")
+			var offer []wire.HeaderLine
+			if strings.HasPrefix(pos, "gzip-") {
+				if L > 64 {
+					continue
+				}
+				offer = []wire.HeaderLine{{"Accept-Encoding", "gzip"}}
+			}
 			mk := func(with bool) *helios {
 				cfg := baseConfig("round_robin", be.URL())
 				cfg.Plugins = config.PluginsConfig{Enabled: true, Chain: c14Positions[pos](sizeLimitCfg(L, L), with)}
@@ -807,7 +832,7 @@ func TestVerifC14(t *testing.T) {
 							if status == 301 {
 								sc.Header = append(sc.Header, wire.HeaderLine{"Location", "/elsewhere"})
 							}
-							req := &wire.Request{Method: method, Target: "/p", Header: []wire.HeaderLine{{"Host", "x.test"}}, NoBody: true}
+							req := &wire.Request{Method: method, Target: "/p", Header: append([]wire.HeaderLine{{"Host", "x.test"}}, offer...), NoBody: true}
 							be.Next(sc)
 							rw := ew.do(req, dl)
 							be.Next(sc)
@@ -815,6 +840,11 @@ func TestVerifC14(t *testing.T) {
 							be.Next(nil)
 							evals++
 							c := c14Case{L: L, Position: "proxy-" + pos, Method: method, Status: status, Comp: comp, Flush: fr, Declare: fr == "length"}
+							if offer != nil && n <= L {
+								// (what gzip makes of a body within the limit is C15's business: with the plugin
+								// outside, size_limit sees the plain bytes; inside, the compressed ones)
+								continue
+							}
 							key, what := c14JudgeResponse(c, rw, ro)
 							if key == "tool" {
 								t.Fatalf("%s: %s", c, what)
